@@ -110,7 +110,7 @@ def gen(rng, tier):
     for bits in GRID_ALL:
         for op in OPS:
             yield '%s %d %x 0' % (op, bits, value(rng, bits))
-    reps = 40 if thorough else 1
+    reps = 100 if thorough else 1
     for _ in range(reps):
         for bits in GRID_ALL:
             if bits == 0:
@@ -124,7 +124,7 @@ def gen(rng, tier):
                     ops = [rng.choice(OPS), rng.choice(CORE)] if L > 2 else [rng.choice(OPS) for _ in range(3)] + ['divrem']
                     for op in ops:
                         yield '%s %d %x %x' % (op, bits, N, d)
-    total = 1500000 if thorough else 25000
+    total = 3000000 if thorough else 25000
     k = 0
     while k < total:
         bits = rng.choice(GRID_ALL[1:])
